@@ -28,7 +28,7 @@ func init() { register(&Prop{ID: "C02", Run: runC02}) }
 
 var c02Faults = []string{"none", "cut_reply_at", "cut_request_at", "half_close", "local_close", "remote_close", "remote_peer_close", "local_peer_close", "cut_now", "write_err"}
 
-var c02Hostile = []string{"ok", "ok", "dup_reply", "wrong_seq", "undecodable", "unknown_codec", "codec0_body", "bad_mtype", "truncated", "garbage", "silent_close", "err_status", "reply_twice_then_ok", "short_frame"}
+var c02Hostile = []string{"ok", "ok", "dup_reply", "wrong_seq", "undecodable", "unknown_codec", "codec0_body", "bad_mtype", "truncated", "garbage", "silent_close", "err_status", "reply_twice_then_ok", "short_frame", "bad_status_body"}
 
 func runC02(t *testing.T, seed uint64, m *Mask) *Report {
 	sc, nc, r := swarm(seed, m)
@@ -398,6 +398,15 @@ func c02RawPeer(e *world.Env, raw *world.RawPeer, proto string, ops []*world.Op,
 			}
 			raw.Conn.Write(f)
 			// stay connected; nothing more is said about this call
+		case "bad_status_body":
+			// an error reply of the http protocol (status line 299) whose body is not a decodable status: it is the
+			// reply to that call all the same, the connection stays up
+			if proto != "http" {
+				raw.Send(erpc.TypeReply, msg.Seq, "", msg.Codec, good, nil, meta, nil)
+				break
+			}
+			body := []string{"<html>oops</html>", `{"code":99999999999}`, `{"code":1,"msg":`, ""}[e.Gen.Intn(4)]
+			raw.Conn.Write([]byte(fmt.Sprintf("HTTP/1.1 299 Business Error\r\nContent-Type: application/json;charset=utf-8\r\nContent-Length: %d\r\nX-Seq: %d\r\nX-Mtype: 2\r\n\r\n%s", len(body), msg.Seq, body)))
 		case "garbage":
 			g := make([]byte, 1+e.Gen.Intn(40))
 			e.Gen.Bytes(g)
